@@ -215,9 +215,18 @@ class Validator:
             d = rootdict
             key = d["__type__"]
         elif isinstance(path[-1], int):
-            # the error is on an object in a list
             d = dictutils.findkey(rootdict, *path)
-            key = d["__type__"]
+            if isinstance(d, dict):
+                # the error is on an object in a list
+                key = d["__type__"]
+            else:
+                # the error is on a value in a list of values e.g. SIZE 10.5 20
+                # so report it against the keyword
+                path = list(path)
+                while isinstance(path[-1], int):
+                    path.pop()
+                key = path[-1]
+                d = dictutils.findkey(rootdict, *path[:-1])
         else:
             key = path[-1]
             d = dictutils.findkey(rootdict, *path[:-1])
